@@ -192,6 +192,27 @@ func rulesC15(c *Ctx) {
 			}
 		}
 		onlyErr = onlyErr && tested
+		// "matches" means equal: the issuer comparison helper compares the two strings exactly (a trailing slash aside); any
+		// folding (case, Unicode) would accept metadata, or hand pre-registered credentials, for a different tenant path
+		ie := c.Fn("internal/authutil", "", "IssuersEqual")
+		okEq := false
+		for _, r := range ie.Returns() {
+			if len(r.Results) == 1 {
+				if b, isB := ast.Unparen(r.Results[0]).(*ast.BinaryExpr); isB && b.Op == token.EQL {
+					okEq = true
+				}
+			}
+		}
+		for _, call := range ie.AllCalls(ie.Body, false) {
+			if fn := ie.Callee(call); fn != nil {
+				switch fn.Name() {
+				case "TrimSuffix", "TrimRight":
+				default:
+					okEq = false
+				}
+			}
+		}
+		c.Check(okEq && len(ie.Returns()) == 1, "IssuersEqual:exact", ie, nil, "issuer identifiers are compared with == after removing a trailing slash, and with nothing else (no EqualFold / ToLower / normalisation)")
 		c.Check(onlyErr && !loopsBack, "GetAuthServerMetadata:validation-error-is-fatal", gm, gg.Node(cv[0]), "an error from GetAuthServerMeta (failed validation, 5xx) is returned to the caller; it is never treated like a missing document (which would silently switch to the predefined-endpoint fallback)")
 	})
 
